@@ -7,6 +7,8 @@ NOTE_COMMON=("Bounded: ranks/sizes/argument ranges as listed in evidence.bounds;
   "(rounding/overflow outside the claim); math.* and gonum samplers are contract stubs; trusted: go/ssa lowering, the executor's "
   "semantics for the SSA instructions met (validated by replaying sampled path models natively), z3 4.8.12, the reference models in /verif/harness.")
 checks={
+ "C10":("Immutability and decoupling decided on the executor's exact store log: every op / BackPropagate / Update / ResetGradContext is executed symbolically and every store into an object allocated before the call is an obligation (allowed: gradient and spent fields in BackPropagate, the pointee in Update, the receiver's context in ResetGradContext); caller-owned slices are overwritten with fresh solver values after the call (also between forward and BackPropagate) and tensors / gradients must equal the reference computed from the original arguments.","3 C10"),
+ "C20":("Sequential write-footprint of every forward op, layer/activation/loss evaluation, private-graph back-propagation and random constructor on shared pre-existing operands, decided on the executor's exact store log over all explored paths, plus determinism (identical result terms on repetition).  Race-freedom under every interleaving follows by the read-only argument (stated assumption, not explored by the solver); a reported shared write is replayed natively in real goroutines under the Go race detector.","3 C20"),
  "C09":("Every public entry point of the tensor and component packages is called symbolically with solver-chosen arguments (integers in [-2,6], slices of length 0..3 or nil, tensors of any small rank/shape or nil, ragged nested data, invalid configs); every Go panic site on the path (index, slice bounds, nil dereference, nil func, type assertion, explicit panic) is an obligation; err != nil is proved equivalent to the documented precondition and results have the defined shape.","3 C09, Appendix A"),
  "C08":("Tracking flags: (a) one application of every op with each operand in a solver-chosen tracking state (inductive step over flags), (b) solver-enumerated bounded histories including BackPropagate and ResetGradContext against a reference state machine; flags, gradient presence and write footprints compared after every step.","3 C08"),
  "C11":("One inductive training step (forward, loss, BackPropagate, SGD.Update on both FC parameters, ResetGradContext) from arbitrary symbolic weights, repeated on the real post-update objects with values abstracted; new weights proved equal to w - lr*dLoss/dw (closed-form reference), post-state invariant (tracked, unspent, no gradient, no edges) checked; no-reset variant must error.  B>1 deviates by the Broadcast mean (known finding, deviant oracle).","3 C11, 5"),
@@ -39,7 +41,7 @@ for p in props:
         text,ref=checks[i]
         m["checks"].append({"property_id":i,"quick_cmd":f"./check {i} quick","thorough_cmd":f"./check {i} thorough",
           "evidence_file":f"/verif/evidence/{i}.json","replay_cmd_template":f"./check {i} --replay {{path}}","engine":"qsym",
-          "level_claimed":{"category":"model_checking","text":text,"design_ref":ref},
+          "level_claimed":{"category":("other" if i=="C20" else "model_checking"),"text":text,"design_ref":ref},
           "level_note":notes.get(i,NOTE_COMMON),"technique":TECH})
     else:
         m["not_applicable"].append({"property_id":i,"reason":na.get(i,"check under construction in this session (engine exists; harness not yet registered)")})
